@@ -17,6 +17,64 @@ pub const FILTERS: [(&str, FilterType); 7] = [
     ("lanczos3", FilterType::Lanczos3),
 ];
 
+use std::sync::atomic::{AtomicU64, Ordering};
+static PARAM_A: AtomicU64 = AtomicU64::new(0);
+static PARAM_B: AtomicU64 = AtomicU64::new(0);
+
+fn lobes_kernel(x: f64) -> f64 {
+    let a = f64::from_bits(PARAM_A.load(Ordering::Relaxed));
+    let b = f64::from_bits(PARAM_B.load(Ordering::Relaxed));
+    let x = x.abs();
+    if x < 0.5 { a } else if x < 1.5 { -b } else { 0.0 }
+}
+fn wide_kernel(x: f64) -> f64 {
+    let s = f64::from_bits(PARAM_A.load(Ordering::Relaxed));
+    if x.abs() < s { 1.0 } else { 0.0 }
+}
+fn scaled_kernel(x: f64) -> f64 {
+    let k = f64::from_bits(PARAM_A.load(Ordering::Relaxed));
+    let x = x.abs();
+    k * (if x < 1.0 { 1.0 - x } else { 0.0 })
+}
+
+/// custom kernels shared with the Lean model (same formulas); parameters live in statics because a
+/// `Filter` takes a plain `fn(f64) -> f64`
+#[derive(Clone, Copy, Debug)]
+pub enum Custom {
+    Lobes(f64, f64),
+    Wide(f64),
+    Scaled(f64),
+}
+
+impl Custom {
+    pub fn name(&self) -> String {
+        match self {
+            Custom::Lobes(a, b) => format!("custom~lobes~{:016x}~{:016x}", a.to_bits(), b.to_bits()),
+            Custom::Wide(s) => format!("custom~wide~{:016x}", s.to_bits()),
+            Custom::Scaled(k) => format!("custom~scaled~{:016x}", k.to_bits()),
+        }
+    }
+    /// set the parameters and build the filter; must be called right before the filter is used
+    pub fn install(&self) -> FilterType {
+        let (f, support): (fn(f64) -> f64, f64) = match *self {
+            Custom::Lobes(a, b) => {
+                PARAM_A.store(a.to_bits(), Ordering::Relaxed);
+                PARAM_B.store(b.to_bits(), Ordering::Relaxed);
+                (lobes_kernel, 1.5)
+            }
+            Custom::Wide(s) => {
+                PARAM_A.store(s.to_bits(), Ordering::Relaxed);
+                (wide_kernel, s)
+            }
+            Custom::Scaled(k) => {
+                PARAM_A.store(k.to_bits(), Ordering::Relaxed);
+                (scaled_kernel, 1.0)
+            }
+        };
+        FilterType::Custom(fir::Filter::new("custom", f, support).unwrap())
+    }
+}
+
 #[derive(Clone)]
 pub struct AlgSpec {
     pub name: String,
@@ -32,6 +90,14 @@ impl AlgSpec {
     }
     pub fn interp(fi: usize) -> Self {
         AlgSpec { name: format!("interp:{}", FILTERS[fi].0), alg: ResizeAlg::Interpolation(FILTERS[fi].1) }
+    }
+    pub fn custom(c: Custom, mode: u8, m: u8) -> Self {
+        let ft = c.install();
+        match mode {
+            0 => AlgSpec { name: format!("conv:{}", c.name()), alg: ResizeAlg::Convolution(ft) },
+            1 => AlgSpec { name: format!("interp:{}", c.name()), alg: ResizeAlg::Interpolation(ft) },
+            _ => AlgSpec { name: format!("ss:{}:{}", c.name(), m), alg: ResizeAlg::SuperSampling(ft, m) },
+        }
     }
     pub fn ss(fi: usize, m: u8) -> Self {
         AlgSpec { name: format!("ss:{}:{}", FILTERS[fi].0, m), alg: ResizeAlg::SuperSampling(FILTERS[fi].1, m) }
@@ -78,6 +144,8 @@ pub struct Case {
     pub sbuf: Vec<u64>,
     /// dynamic entry point (Image / ImageRef / CroppedImage) instead of the typed one
     pub dynamic: bool,
+    /// custom kernel whose parameters must be installed before the run
+    pub custom: Option<Custom>,
 }
 
 impl Case {
@@ -92,6 +160,52 @@ impl Case {
     }
     pub fn dlen(&self) -> usize {
         self.dshape.buf_len()
+    }
+}
+
+pub static GUARD_PAGES: std::sync::atomic::AtomicBool = std::sync::atomic::AtomicBool::new(false);
+
+extern "C" {
+    fn mmap(addr: *mut u8, len: usize, prot: i32, flags: i32, fd: i32, off: i64) -> *mut u8;
+    fn mprotect(addr: *mut u8, len: usize, prot: i32) -> i32;
+    fn munmap(addr: *mut u8, len: usize) -> i32;
+}
+
+/// pixels placed flush against an inaccessible page (after the last pixel) and preceded by one:
+/// an out-of-bounds SIMD load or `get_unchecked` faults instead of reading a neighbour
+pub struct Guarded<P> {
+    base: *mut u8,
+    total: usize,
+    ptr: *mut P,
+    len: usize,
+}
+
+impl<P: InnerPixel> Guarded<P> {
+    pub fn new(bytes: &[u8]) -> Self {
+        const PAGE: usize = 4096;
+        let data = (bytes.len() + PAGE - 1) / PAGE * PAGE;
+        let total = data + 2 * PAGE;
+        unsafe {
+            let base = mmap(std::ptr::null_mut(), total, 3, 0x22, -1, 0); // PROT_READ|WRITE, MAP_PRIVATE|MAP_ANONYMOUS
+            assert!(!base.is_null() && base as isize != -1);
+            mprotect(base, PAGE, 0);
+            mprotect(base.add(PAGE + data), PAGE, 0);
+            let start = base.add(PAGE + data - bytes.len());
+            std::ptr::copy_nonoverlapping(bytes.as_ptr(), start, bytes.len());
+            Guarded { base, total, ptr: start as *mut P, len: bytes.len() / P::size() }
+        }
+    }
+    pub fn slice(&self) -> &[P] {
+        unsafe { std::slice::from_raw_parts(self.ptr, self.len) }
+    }
+    pub fn slice_mut(&mut self) -> &mut [P] {
+        unsafe { std::slice::from_raw_parts_mut(self.ptr, self.len) }
+    }
+}
+
+impl<P> Drop for Guarded<P> {
+    fn drop(&mut self) {
+        unsafe { munmap(self.base, self.total) };
     }
 }
 
@@ -118,8 +232,13 @@ fn crops2(s: &Shape) -> [(u32, u32, u32, u32); 2] {
 }
 
 fn run_typed<P: PixelTrait>(case: &Case, resizer: &mut Resizer, sbytes: &[u8], dbytes: &mut Vec<u8>) -> Result<(), fir::ResizeError> {
-    let spx: Vec<P> = pixels_from_bytes(sbytes);
-    let mut dpx: Vec<P> = pixels_from_bytes(dbytes);
+    let guard = GUARD_PAGES.load(std::sync::atomic::Ordering::Relaxed) && std::mem::align_of::<P>() <= 4 && sbytes.len() % 4 == 0 && dbytes.len() % 4 == 0;
+    let mut gs: Option<Guarded<P>> = if guard { Some(Guarded::new(sbytes)) } else { None };
+    let mut gd: Option<Guarded<P>> = if guard { Some(Guarded::new(dbytes)) } else { None };
+    let spx_v: Vec<P> = if guard { Vec::new() } else { pixels_from_bytes(sbytes) };
+    let mut dpx_v: Vec<P> = if guard { Vec::new() } else { pixels_from_bytes(dbytes) };
+    let spx: &[P] = match gs.as_mut() { Some(g) => g.slice(), None => &spx_v };
+    let dpx: &mut [P] = match gd.as_mut() { Some(g) => g.slice_mut(), None => &mut dpx_v };
     let opts = case.options();
     let (soff, sw, sh, slen) = shape_base(&case.sshape);
     let (doff, dw, dh, dlen) = shape_base(&case.dshape);
@@ -151,7 +270,7 @@ fn run_typed<P: PixelTrait>(case: &Case, resizer: &mut Resizer, sbytes: &[u8], d
             }
         }
     };
-    *dbytes = bytes_of_pixels(&dpx);
+    *dbytes = bytes_of_pixels(dpx);
     r
 }
 
@@ -205,6 +324,9 @@ pub fn run_case_with(case: &Case, resizer: &mut Resizer, fill: u8) -> String {
     let sbytes = comps_to_bytes(kind, &case.sbuf);
     let mut dbytes = vec![fill; case.dlen() * case.pt.size()];
     unsafe { resizer.set_cpu_extensions(case.ext) };
+    if let Some(c) = case.custom {
+        c.install();
+    }
     let r = catch(|| {
         if case.dynamic {
             run_dynamic(case, resizer, &sbytes, &mut dbytes)
